@@ -3,6 +3,7 @@ CONSTANTS
   MaxE = 4
   MaxOps = 5
   GenHist = FALSE
+  GenKinds = {"H", "T"}
 INIT Init
 NEXT Next
 INVARIANTS TypeOK NoLate NextSound ExactlyOnce NotEarly Ordered Unique
